@@ -126,6 +126,22 @@ R5 = {
 for _k, _v in R5.items():
     CHECKS[_k]["text"] += " " + _v
 
+# additions of seeding round 6 and of the false-alarm hunt (DESIGN 15.6)
+R6 = {
+ "C04": "The command-line program itself, in its release and its dev build, is run on the deepest nesting family (63 / 64 levels of every nesting construct).",
+ "C05": "A plain increment after a closed unchecked block in the same body, for every statement chain.",
+ "C06": "constant / immutable / mapping variables among the neighbours of every member description.",
+ "C08": "Holders with constant / immutable before and after a visibility keyword (12 declaration forms quick, 20 thorough).",
+ "C14": "The corpus is spread over three directory levels; the section oracle takes 'which patterns have findings in the corpus' from the library of the same build; tolerant spellings of documented names are not treated as unknown names; a run counts as successful when it completes and writes its report, whatever its exit status.",
+ "C15": "The binary pass also analyses two layouts of one body under one file name in sibling directories.",
+ "C10": "A container counts as reported by a reported line anywhere inside it (not inside a nested verdict's construct).",
+ "C02": "For container-level findings (contract, struct) the reported line may be the first line of the container or of one of its members.",
+ "C03": "File labels are compared by their last path component; keys without findings and empty line sets are not findings.",
+ "C12": "A vulnerability pattern the property does not name may stand under any severity heading.",
+}
+for _k, _v in R6.items():
+    CHECKS[_k]["text"] += " " + _v
+
 NOT_YET = "check not built yet in this revision of /verif (see DESIGN.md section 7 for the planned decision procedure)"
 
 def main():
